@@ -83,8 +83,9 @@ If --internal is specified, then internal nodes are renamed;
 		var treechan <-chan tree.Trees
 		var namemap map[string]string = nil
 		var setregex, setreplace bool
-		setregex = cmd.Flags().Changed("regexp")
-		setreplace = cmd.Flags().Changed("replace")
+		// "none" is the documented default: giving it explicitly means the same as omitting the option
+		setregex = renameRegex != "none"
+		setreplace = renameReplaceBy != "none"
 
 		if !(renameTips || renameInternalNodes) {
 			err = errors.New("You should rename at least internal nodes (--internal) or tips (--tips)")
